@@ -13,7 +13,8 @@ use bitcoin::bip32::{self, ChildNumber, DerivationPath, Fingerprint, Xpriv, Xpub
 use bitcoin::secp256k1::{Secp256k1, SecretKey, XOnlyPublicKey};
 use bitcoin::Network;
 use miniscript::descriptor::{
-    DescriptorKeyParseError as E, DescriptorPublicKey, MalformedKeyDataKind as M, SinglePubKey, Wildcard,
+    DerivPaths, DescriptorKeyParseError as E, DescriptorMultiXKey, DescriptorPublicKey, DescriptorXKey,
+    MalformedKeyDataKind as M, SinglePubKey, Wildcard,
 };
 use std::collections::BTreeMap;
 use std::fmt::Write as _;
@@ -912,6 +913,126 @@ fn directed(m: &Material) -> Vec<String> {
     v
 }
 
+
+// ---------------------------------------------------------------------------------------------
+// keys built as VALUES on the BIP32 depth limit: depth + steps + (1 if wildcard) = 253..256, for
+// xpubs of depth 0, 5 (real derivation) and 250 (depth field set by hand), every wildcard, single path
+// and multipath (step first / middle / last).  Display, then FromStr: a value within the limit
+// (total <= 255) must come back equal; the printed texts also join the cases compared with the model.
+
+struct ValueCase {
+    text: String,
+    desc: String,
+    within: bool,
+    rt_ok: bool,
+    result: String,
+}
+
+fn value_cases(seed: u64) -> Vec<ValueCase> {
+    let mut rng = Rng(seed ^ 0x6b65_7974_6578_7400);
+    let m = material(&mut rng);
+    let mut rng = Rng(seed ^ 0x7661_6c75_6573);
+    let bases: Vec<Xpub> = vec![
+        Xpub::from_str(&m.xpub0).expect("xpub0"),
+        Xpub::from_str(&m.xpubs[4]).expect("xpub depth 5"),
+        Xpub::from_str(&m.xpub250).expect("xpub250"),
+    ];
+    let mut out = Vec::new();
+    for x in &bases {
+        let d = x.depth as usize;
+        for total in [253usize, 254, 255, 256] {
+            for (wi, w) in [Wildcard::None, Wildcard::Unhardened, Wildcard::Hardened].iter().enumerate() {
+                let wsteps = if wi == 0 { 0 } else { 1 };
+                if total < d + wsteps {
+                    continue;
+                }
+                let steps = total - d - wsteps;
+                for shape in 0..4usize {
+                    if shape > 0 && steps == 0 {
+                        continue;
+                    }
+                    let path: Vec<ChildNumber> = (0..steps)
+                        .map(|_| {
+                            let i = rng.below(3) as u32;
+                            if rng.chance(1, 4) {
+                                ChildNumber::Hardened { index: i }
+                            } else {
+                                ChildNumber::Normal { index: i }
+                            }
+                        })
+                        .collect();
+                    let origin = if rng.chance(1, 2) {
+                        Some((
+                            bitcoin::bip32::Fingerprint::from([0xd3, 0x4d, 0xb3, 0x3f]),
+                            DerivationPath::from(vec![ChildNumber::Hardened { index: 44 }]),
+                        ))
+                    } else {
+                        None
+                    };
+                    let (key, sname) = if shape == 0 {
+                        (
+                            DescriptorPublicKey::XPub(DescriptorXKey {
+                                origin,
+                                xkey: *x,
+                                derivation_path: DerivationPath::from(path.clone()),
+                                wildcard: *w,
+                            }),
+                            "single-path",
+                        )
+                    } else {
+                        let pos = match shape {
+                            1 => 0,
+                            2 => steps / 2,
+                            _ => steps - 1,
+                        };
+                        let mut pa = path.clone();
+                        let mut pb = path.clone();
+                        pa[pos] = ChildNumber::Normal { index: 7 };
+                        pb[pos] = ChildNumber::Hardened { index: 7 };
+                        (
+                            DescriptorPublicKey::MultiXPub(DescriptorMultiXKey {
+                                origin,
+                                xkey: *x,
+                                derivation_paths: DerivPaths::new(vec![
+                                    DerivationPath::from(pa),
+                                    DerivationPath::from(pb),
+                                ])
+                                .expect("two paths"),
+                                wildcard: *w,
+                            }),
+                            ["", "multipath-first", "multipath-middle", "multipath-last"][shape],
+                        )
+                    };
+                    let text = match guarded(|| key.to_string()) {
+                        Some(t) => t,
+                        None => continue,
+                    };
+                    let dv = dump(&key);
+                    let (rt_ok, result) = match guarded(|| DescriptorPublicKey::from_str(&text)) {
+                        None => (false, "panic".to_string()),
+                        Some(Err(e)) => (false, format!("rejected: {}", e)),
+                        Some(Ok(k2)) => {
+                            if dump(&k2) == dv {
+                                (true, "equal".to_string())
+                            } else {
+                                (false, "parsed to a different key".to_string())
+                            }
+                        }
+                    };
+                    out.push(ValueCase {
+                        text,
+                        desc: format!("xpub depth {} + {} steps + wildcard {:?} = {} ({})", d, steps, w, total, sname),
+                        within: total <= 255,
+                        rt_ok,
+                        result,
+                    });
+                }
+            }
+        }
+    }
+    out
+}
+
 fn generate(seed: u64, tier: &str) -> Vec<(String, &'static str)> {
     let mut rng = Rng(seed ^ 0x6b65_7974_6578_7400);
     let m = material(&mut rng);
@@ -933,6 +1054,9 @@ fn generate(seed: u64, tier: &str) -> Vec<(String, &'static str)> {
     }
     for s in directed(&m) {
         out.push((s, "directed"));
+    }
+    for v in value_cases(seed) {
+        out.push((v.text, "value"));
     }
     out
 }
@@ -1053,6 +1177,24 @@ pub fn run(args: &[String]) {
         json(&outcomes),
         json(&shapes)
     );
+    if file.is_none() {
+        let vs = value_cases(seed);
+        let within = vs.iter().filter(|v| v.within).count();
+        let within_ok = vs.iter().filter(|v| v.within && v.rt_ok).count();
+        let over = vs.iter().filter(|v| !v.within).count();
+        let over_rej = vs.iter().filter(|v| !v.within && v.result.starts_with("rejected")).count();
+        eprintln!(
+            "KEYVALUES n={} within_limit={} within_limit_roundtrip_ok={} over_limit={} over_limit_rejected={}",
+            vs.len(),
+            within,
+            within_ok,
+            over,
+            over_rej
+        );
+        for v in vs.iter().filter(|v| v.within && !v.rt_ok) {
+            eprintln!("KEYVALUEFAIL {} :: {} :: {}", v.desc, v.result, v.text);
+        }
+    }
     if file.is_some() {
         for (i, c) in cases.iter().enumerate() {
             let acc = (c.obs.first() == Some(&0)) as u64;
